@@ -20,6 +20,7 @@ class FakeSelector:
     waited = 0.0
     calls = 0
     unbounded = 0
+    overshoot = 0.0            # a select() that times out returns this much late (real selectors round up and get descheduled)
 
     def __enter__(self):
         return self
@@ -41,6 +42,8 @@ class FakeSelector:
             cls.waited += d
             return [1]
         d = min(timeout, ready_in)
+        if ready_in > timeout:
+            d += cls.overshoot
         CLOCK[0] += d
         cls.waited += d
         return [1] if ready_in <= timeout else []
@@ -58,8 +61,9 @@ class T(base_selector.SelectorBaseTransport):
         return {}
 
 
-def run_case(timeout, retry_interval, ready_script, blocks_before_success):
+def run_case(timeout, retry_interval, ready_script, blocks_before_success, overshoot=0.0):
     CLOCK[0] = 0.0
+    FakeSelector.overshoot = overshoot
     FakeSelector.script = list(ready_script)
     FakeSelector.waited = 0.0
     FakeSelector.calls = 0
@@ -86,8 +90,9 @@ def run_case(timeout, retry_interval, ready_script, blocks_before_success):
     eps = 1e-9
     pr = []
     if timeout != math.inf:
-        if FakeSelector.waited > timeout + eps:
-            pr.append({"rule": "total blocking time must not exceed the timeout T (C11)", "waited": FakeSelector.waited, "T": timeout})
+        if FakeSelector.waited > timeout + overshoot + eps:
+            pr.append({"rule": "total blocking time must not exceed the timeout T (by more than one late wake-up of the selector) (C11)",
+                       "waited": FakeSelector.waited, "T": timeout, "late_wake_up": overshoot})
         if FakeSelector.unbounded:
             pr.append({"rule": "no unbounded select() with a finite budget (C11)"})
         if timeout == 0 and FakeSelector.calls:
@@ -195,6 +200,17 @@ def search():
                             enc = lambda x: "inf" if x == math.inf else x
                             return {"reproduced": True, "timeout": enc(timeout), "retry_interval": enc(ri), "ready_script": [enc(x) for x in script],
                                     "blocks_before_success": blocks, "violation": pr, "cases": cases}
+    # selectors wake up late: the time really spent must be what is charged, whatever the nominal wait was
+    for timeout in (0.5, 1.0):
+        for ri in (0.05, 0.1, 0.3):
+            for ov in (0.01, 0.05):
+                for blocks in (None, 30):
+                    cases += 1
+                    pr = run_case(timeout, ri, [], blocks, overshoot=ov)
+                    if pr:
+                        return {"reproduced": True, "timeout": timeout, "retry_interval": ri, "ready_script": [], "blocks_before_success": blocks,
+                                "overshoot": ov, "violation": pr, "cases": cases}
+    FakeSelector.overshoot = 0.0
     return {"reproduced": False, "cases": cases, "exhaustive": True}
 
 
@@ -209,7 +225,7 @@ def main():
             pr = run_send_case(w["method"], dec(w["timeout"]), w["waits"], w["chunk"])
             print(json.dumps({"reproduced": bool(pr), "violation": pr}))
             return 1 if pr else 0
-        pr = run_case(dec(w["timeout"]), dec(w["retry_interval"]), [dec(x) for x in w["ready_script"]], w["blocks_before_success"])
+        pr = run_case(dec(w["timeout"]), dec(w["retry_interval"]), [dec(x) for x in w["ready_script"]], w["blocks_before_success"], overshoot=w.get("overshoot", 0.0))
         print(json.dumps({"reproduced": bool(pr), "violation": pr}))
         return 1 if pr else 0
     print(json.dumps(search()))
